@@ -470,7 +470,7 @@ func init() {
 }
 
 func init() {
-	register(&Rule{ID: "PARSE.number-conversion", Floor: 3,
+	register(&Rule{ID: "PARSE.number-conversion", Floor: 2,
 		Doc: "the reader converts a numeric literal by handing the token's own, complete text (sign included) to strconv.ParseInt / ParseFloat: the argument is p.TokenText() or a local defined only by it — never a trimmed or re-sliced text, and never an unsigned or magnitude parse followed by a negation, which cannot represent the most negative integer (-9223372036854775808 must read back)",
 		Run: func(c *Ctx) []Obligation {
 			tokText := c.LookupMethod("parser/rdparser.Parser.TokenText")
